@@ -337,8 +337,6 @@ func c17RunCase(t *testing.T, k c17Knobs, seed int64) (obs c17Obs) {
 	var sendsAfter atomic.Int64
 	nextFresh := atomic.Int64{}
 	nextFresh.Store(int64(k.Grains))
-	var freshMu sync.Mutex
-	freshActivated := map[int]bool{}
 	for s := 0; s < k.Senders; s++ {
 		sendersWG.Add(1)
 		srng := rand.New(rand.NewSource(seed + int64(s)*7919))
@@ -369,9 +367,7 @@ func c17RunCase(t *testing.T, k c17Knobs, seed int64) (obs c17Obs) {
 					what = "GrainIdentity"
 					_, err = newGrain(idx)
 					if err == nil {
-						freshMu.Lock()
-						freshActivated[idx] = true
-						freshMu.Unlock()
+						cs.log.add("grain-identity-returned", idx, 0)
 					}
 				case c < 6 || len(idents) == 0:
 					n := nodes[srng.Intn(len(nodes))]
@@ -490,6 +486,7 @@ func c17RunCase(t *testing.T, k c17Knobs, seed int64) (obs c17Obs) {
 	invs := map[int64]*inv{}
 	type act struct{ idx, activate, deactEnter, deactExit, deacts int }
 	acts := map[int64]*act{}
+	identityReturned := map[int]int{} // fresh grain index -> seq at which GrainIdentity returned nil
 	for _, e := range events {
 		switch e.Kind {
 		case "poststop-enter":
@@ -507,6 +504,8 @@ func c17RunCase(t *testing.T, k c17Knobs, seed int64) (obs c17Obs) {
 			if v := invs[e.Tok]; v != nil {
 				v.exit = e.Seq
 			}
+		case "grain-identity-returned":
+			identityReturned[e.Who] = e.Seq
 		case "grain-activate":
 			acts[e.Tok] = &act{idx: e.Who, activate: e.Seq}
 			obs.Activations++
@@ -552,6 +551,11 @@ func c17RunCase(t *testing.T, k c17Knobs, seed int64) (obs c17Obs) {
 		for tok, a := range acts {
 			if a.deacts != 1 {
 				kind := "active-before-stop"
+				if ret, fresh := identityReturned[a.idx]; a.idx >= k.Grains && a.activate < stopCalled && (!fresh || ret > stopCalled) {
+					// OnActivate ran before Stop was called, but the GrainIdentity call that
+					// activated it had not returned yet
+					kind = "activation-in-flight-at-stop-call"
+				}
 				if a.activate > barrier {
 					kind = "activated-after-stop-returned"
 				} else if a.activate > stopCalled {
